@@ -546,3 +546,144 @@ def c04_altpolya(tier, rng):
         viol.append({"obligation": "C04.alt_polya_loci.nontrivial", "inputs": None, "observed": "no spliced novel model reported: the scenario no longer exercises the filter",
                      "required": "at least one spliced novel model", "undecided": True})
     return {"cases": 3, "bound": "3 synthetic loci, 12 polyA reads each", "violations": viol, "samples": [{"models": sorted(models)[:6]}]}
+
+
+# ---- random loci: the same output invariants on generated annotations and read sets ---------------------------------------------------------
+def _random_loci(seed):
+    """6 loci, 9 kb apart, in the gene-free stretch of the bundled reference. Per locus: a strand, 4-6 exons, 1-3 annotated isoforms (the full
+    chain, an exon-skipping variant, an alternative-acceptor variant) and 1-3 read populations of 4-8 identical-chain reads each: an annotated
+    isoform, a novel combination of annotated introns, a chain with one splice site moved by 15-40 bp, or a chain with an extra unannotated
+    exon skipped. Every read carries a soft-clipped polyA tail (polyT head on '-'), MAPQ 60, no mismatches."""
+    import random
+    rng = random.Random(seed)
+    base = 3041000
+    loci = []
+    for li in range(6):
+        o = base + 9000 * li
+        strand = rng.choice("+-")
+        n = rng.randint(4, 6)
+        pos = o + 500
+        exons = []
+        for k in range(n):
+            ln = rng.randint(100, 260)
+            exons.append((pos, pos + ln - 1))
+            pos += ln + rng.randint(300, 900)
+        iso = {"full": list(exons)}
+        inner = list(range(1, n - 1))
+        if rng.random() < .7:
+            sk = rng.choice(inner)
+            iso["skip"] = [e for i, e in enumerate(exons) if i != sk]
+        if rng.random() < .5:
+            j = rng.choice(inner)
+            sh = rng.randint(20, 60)
+            iso["altacc"] = [((e[0] + sh, e[1]) if i == j else e) for i, e in enumerate(exons)]
+        pops = []
+        for _ in range(rng.randint(1, 3)):
+            kind = rng.choice(["known", "combo", "shift", "skip2"])
+            if kind == "known":
+                chain = list(iso[rng.choice(sorted(iso))])
+            elif kind == "combo":
+                # skip another inner exon than the annotated skipping variant (all introns of the result that exist in some isoform stay annotated only by chance)
+                sk2 = rng.choice(inner)
+                chain = [e for i, e in enumerate(exons) if i != sk2]
+            elif kind == "shift":
+                j = rng.choice(inner)
+                sh = rng.choice([-1, 1]) * rng.randint(15, 40)
+                chain = [((e[0], e[1] + sh) if i == j else e) for i, e in enumerate(exons)]
+            else:
+                two = rng.sample(inner, min(2, len(inner)))
+                chain = [e for i, e in enumerate(exons) if i not in two]
+            if len(chain) >= 3:
+                pops.append((kind, chain, rng.randint(4, 8)))
+        loci.append({"gene": "rndG%d" % li, "strand": strand, "isoforms": iso, "reads": pops})
+    return loci
+
+
+def _random_loci_prepare(seed):
+    def prepare(d):
+        import gzip, os, random
+        import pysam
+        seq = "".join(l.strip() for l in gzip.open(os.path.join(d, "chr9.4M.fa.gz"), "rt") if not l.startswith(">")).upper()
+        inp = pysam.AlignmentFile(os.path.join(d, "chr9.4M.ont.sim.polya.bam"))
+        tid = inp.get_tid("chr9")
+        rng = random.Random(seed + 1)
+        gtf, recs = [], []
+        for L in _random_loci(seed):
+            lo = min(e[0] for ex in L["isoforms"].values() for e in ex); hi = max(e[1] for ex in L["isoforms"].values() for e in ex)
+            gtf.append("chr9\tsyn\tgene\t%d\t%d\t.\t%s\t.\tgene_id \"%s\";" % (lo, hi, L["strand"], L["gene"]))
+            for name, ex in sorted(L["isoforms"].items()):
+                t = "%s.%s" % (L["gene"], name)
+                gtf.append("chr9\tsyn\ttranscript\t%d\t%d\t.\t%s\t.\tgene_id \"%s\"; transcript_id \"%s\";" % (ex[0][0], ex[-1][1], L["strand"], L["gene"], t))
+                for a, b in ex:
+                    gtf.append("chr9\tsyn\texon\t%d\t%d\t.\t%s\t.\tgene_id \"%s\"; transcript_id \"%s\";" % (a, b, L["strand"], L["gene"], t))
+            for pi, (kind, chain, cnt) in enumerate(L["reads"]):
+                for k in range(cnt):
+                    e = list(chain)
+                    if L["strand"] == "+":
+                        e[0] = (e[0][0] + rng.randint(0, 5), e[0][1])
+                    else:
+                        e[-1] = (e[-1][0], e[-1][1] - rng.randint(0, 5))
+                    a = pysam.AlignedSegment(inp.header)
+                    a.query_name, a.reference_id, a.reference_start, a.mapping_quality = "%s_p%d_%s_%d" % (L["gene"], pi, kind, k), tid, e[0][0] - 1, 60
+                    a.flag = 0 if L["strand"] == "+" else 16
+                    cig, s_ = [], ""
+                    for i, (x, y) in enumerate(e):
+                        if i:
+                            cig.append((3, x - e[i - 1][1] - 1))
+                        cig.append((0, y - x + 1)); s_ += seq[x - 1:y]
+                    if L["strand"] == "+":
+                        cig.append((4, 30)); s_ += "A" * 30
+                    else:
+                        cig.insert(0, (4, 30)); s_ = "T" * 30 + s_
+                    a.cigartuples, a.query_sequence = cig, s_
+                    a.query_qualities = pysam.qualitystring_to_array("I" * len(s_))
+                    a.set_tag("NM", 0)
+                    recs.append(a)
+        with pysam.AlignmentFile(os.path.join(d, "rnd.bam"), "wb", template=inp) as out:
+            for a in sorted(recs, key=lambda x: x.reference_start):
+                out.write(a)
+        pysam.index(os.path.join(d, "rnd.bam"))
+        open(os.path.join(d, "rnd.gtf"), "w").write("\n".join(gtf) + "\n")
+        return "rnd.bam", "rnd.gtf"
+    return prepare
+
+
+def _random_loci_problems(seed, annotated, counter=None):
+    def expect(models):
+        if counter is not None:
+            counter.append(sum(1 for t in models if t.startswith("transcript")))
+        return []
+    return _novel_output_problems(annotated, _random_loci_prepare(seed), expect)
+
+
+def replay_random_loci(d):
+    p = _random_loci_problems(d["inputs"]["seed"], d["inputs"]["with_annotation"])
+    return (not p), "seed %s, with_annotation=%s: %s" % (d["inputs"]["seed"], d["inputs"]["with_annotation"], p[:5] or "outputs consistent")
+
+
+@bounded("C04.random_loci", ["C04", "C03"], shards=8, note="pipeline runs on generated loci (6 per run: random strand, 4-6 exons, 1-3 annotated isoforms, "
+         "1-3 read populations: annotated chains, novel combinations of annotated introns, splice sites moved by 15-40 bp, double exon "
+         "skipping; polyA tails), with the generated annotation and annotation-free: the output invariants of C04.pipeline_outputs")
+def c04_random_loci(tier, rng):
+    n = 2 if tier == "quick" else 20
+    base = rng.randrange(10 ** 9)
+    viol, novel = [], []
+    cases = 0
+    for k in range(n):
+        for wa in (True, False):
+            if tier == "quick" and wa != (k % 2 == 0):
+                continue
+            cases += 1
+            p = _random_loci_problems(base + k, wa, novel)
+            if p:
+                viol.append({"obligation": "C04.random_loci.%s" % ("annotated" if wa else "annotation_free"),
+                             "inputs": {"seed": base + k, "with_annotation": wa}, "observed": p[:5],
+                             "required": "novel models evidence-backed, labelled, non-redundant", "replay_call": "contracts.c_novel:replay_random_loci"})
+                break
+        if viol:
+            break
+    if not viol and sum(novel) == 0:
+        viol.append({"obligation": "C04.random_loci.nontrivial", "inputs": None, "observed": "no novel model in %d runs" % cases, "required": "some novel models",
+                     "undecided": True})
+    return {"cases": cases, "bound": "%d pipeline runs x 6 generated loci (%d novel models reported)" % (cases, sum(novel)), "violations": viol,
+            "samples": [{"seed": base, "novel_models": sum(novel)}]}
